@@ -195,3 +195,186 @@ Proof.
   - rewrite <- Mv. exact (B v Fv).
   - rewrite <- Mv. exact (B v Fv).
 Qed.
+
+(* ---- the python_version / python_full_version pair ---- *)
+Definition pvv (X Y : N) : version := relver 0 [X; Y].
+Definition pfv (X Y Z : N) : version := relver 0 [X; Y; Z].
+
+(* two release lists that compare alike against everything (equal up to trailing zeros) *)
+Definition releq (r r2 : list N) : Prop := forall l, cmp_pad r l = cmp_pad r2 l.
+Lemma releq_sym_side r r2 : releq r r2 -> forall l, cmp_pad l r = cmp_pad l r2.
+Proof. intros H l. rewrite (cmp_pad_antisym r l), (cmp_pad_antisym r2 l), H. reflexivity. Qed.
+Lemma releq_app_zero r z : all_zero z = true -> releq (r ++ z) r.
+Proof. intros Hz l. apply cmp_pad_app_zero_l. exact Hz. Qed.
+Lemma releq_trans a b c : releq a b -> releq b c -> releq a c.
+Proof. intros H1 H2 l. rewrite H1. apply H2. Qed.
+Lemma releq_refl a : releq a a. Proof. intros l. reflexivity. Qed.
+
+Lemma vcmp_releq_l r r2 v : releq r r2 -> vcmp (relver 0 r) v = vcmp (relver 0 r2) v.
+Proof. intros H. rewrite !vcmp_relver_l. cbn [epoch release relver]. rewrite H. reflexivity. Qed.
+Lemma vcmp_releq_r r r2 v : releq r r2 -> vcmp v (relver 0 r) = vcmp v (relver 0 r2).
+Proof. intros H. rewrite !vcmp_relver_r. cbn [epoch release relver]. rewrite (releq_sym_side r r2 H). reflexivity. Qed.
+
+Lemma strip_to2_releq fuel : forall r, releq r (strip_to2 fuel r).
+Proof.
+  induction fuel as [|f IH]; intros r; [apply releq_refl|]. cbn [strip_to2].
+  destruct (Nat.ltb 2 (length r) && (last r 1 =? 0)%N) eqn:E; [|apply releq_refl].
+  apply andb_prop in E as [E1 E2]. apply N.eqb_eq in E2.
+  assert (Hne : r <> []) by (intros ->; discriminate E1).
+  destruct (exists_last Hne) as (m & x & ->). rewrite last_last in E2. subst x. rewrite removelast_last.
+  eapply releq_trans; [apply (releq_app_zero m [0%N]); reflexivity | apply IH].
+Qed.
+
+(* the arithmetic: a python_version X.Y against an operand a.b, and the python_full_version X.Y.Z against the normalised clause *)
+Ltac ncases :=
+  repeat match goal with
+         | |- context [N.compare ?p ?q] => destruct (N.compare_spec p q)
+         | |- context [N.eqb ?p ?q] => destruct (N.eqb_spec p q)
+         end; subst; try lia; try reflexivity.
+
+Lemma cmp2_2 a b X Y : cmp_pad [a; b] [X; Y] = match N.compare a X with Eq => N.compare b Y | c => c end.
+Proof. cbn. destruct (N.compare a X); try reflexivity. destruct (N.compare b Y); reflexivity. Qed.
+Lemma cmp2_3 a b X Y Z : cmp_pad [a; b] [X; Y; Z] = match N.compare a X with Eq => match N.compare b Y with Eq => if (0 =? Z)%N then Eq else Lt | c => c end | c => c end.
+Proof. cbn. destruct (N.compare a X); try reflexivity. destruct (N.compare b Y); try reflexivity. destruct Z; reflexivity. Qed.
+Lemma cmp3_2 a b X Y Z : cmp_pad [X; Y; Z] [a; b] = match N.compare X a with Eq => match N.compare Y b with Eq => if (0 =? Z)%N then Eq else Gt | c => c end | c => c end.
+Proof. cbn. destruct (N.compare X a); try reflexivity. destruct (N.compare Y b); try reflexivity. destruct Z; reflexivity. Qed.
+
+Lemma vcmp_pv a b X Y : vcmp (relver 0 [a; b]) (pvv X Y) = match N.compare a X with Eq => N.compare b Y | c => c end.
+Proof. unfold pvv. rewrite vcmp_relver, cmp2_2. reflexivity. Qed.
+Lemma vcmp_pv' a b X Y : vcmp (pvv X Y) (relver 0 [a; b]) = match N.compare X a with Eq => N.compare Y b | c => c end.
+Proof. unfold pvv. rewrite vcmp_relver, cmp2_2. reflexivity. Qed.
+Lemma vcmp_pfv a b X Y Z : vcmp (relver 0 [a; b]) (pfv X Y Z) = match N.compare a X with Eq => match N.compare b Y with Eq => if (0 =? Z)%N then Eq else Lt | c => c end | c => c end.
+Proof. unfold pfv. rewrite vcmp_relver, cmp2_3. reflexivity. Qed.
+Lemma vcmp_pfv' a b X Y Z : vcmp (pfv X Y Z) (relver 0 [a; b]) = match N.compare X a with Eq => match N.compare Y b with Eq => if (0 =? Z)%N then Eq else Gt | c => c end | c => c end.
+Proof. unfold pfv. rewrite vcmp_relver, cmp3_2. reflexivity. Qed.
+
+Definition norm_target (op : sop) (a b : N) : clause :=
+  match op with
+  | OpEq => mkClause OpEqStar (relver 0 [a; b])
+  | OpNe => mkClause OpNeStar (relver 0 [a; b])
+  | OpGt => mkClause OpGe (relver 0 [a; b + 1])
+  | OpLe => mkClause OpLt (relver 0 [a; b + 1])
+  | o => mkClause o (relver 0 [a; b])
+  end.
+
+Lemma norm_arith op a b X Y Z : op <> OpEqStar -> op <> OpNeStar ->
+  clause_sem (mkClause op (relver 0 [a; b])) (pvv X Y) = clause_sem (norm_target op a b) (pfv X Y Z).
+Proof.
+  intros H1 H2. destruct op; try congruence; unfold norm_target, clause_sem; cbn [c_op c_ver];
+    rewrite ?pvleb, ?pvltb, ?pveqb, ?prefix_match_pm, ?vcmp_pv, ?vcmp_pv', ?vcmp_pfv, ?vcmp_pfv';
+    cbn [epoch release relver pvv pfv pm removelast N.eqb andb]; ncases; try (destruct Z; reflexivity).
+Qed.
+
+(* operands of python_version the normalisation handles: a plain release whose meaningful part has one or two segments
+   (everything else is the recorded finding pv-long-operand) *)
+Definition pv_operand_ok (c : clause) : Prop :=
+  c_ver c = relver 0 (release (c_ver c)) /\
+  let r0 := release (c_ver c) in
+  match c_op c with
+  | OpEqStar | OpNeStar => length r0 = 1%nat \/ length r0 = 2%nat
+  | OpCompat => length r0 = 2%nat
+  | _ => length (strip_to2 (length r0) r0) = 1%nat \/ length (strip_to2 (length r0) r0) = 2%nat
+  end.
+
+Lemma get_specifier_sem k : wf_clause k ->
+  exists s, get_specifier k = Ret s /\ canon s /\ simp_ok s /\ forall v, final v -> mem (vcut v) s = clause_sem k v.
+Proof.
+  intros W. destruct (parse_single k W) as (s & Ep & Ef & _). destruct (from_pkg_spec k W) as (s' & E' & C & S & M).
+  rewrite Ef in E'. injection E' as <-. exists s. repeat split; assumption.
+Qed.
+
+Lemma releq_sym a b : releq a b -> releq b a.
+Proof. intros H l. symmetry. apply H. Qed.
+
+Lemma simple_sem_releq op r r2 v : releq r r2 ->
+  op <> OpCompat -> op <> OpEqStar -> op <> OpNeStar ->
+  clause_sem (mkClause op (relver 0 r)) v = clause_sem (mkClause op (relver 0 r2)) v.
+Proof.
+  intros H N1 N2 N3. destruct op; try congruence; unfold clause_sem; cbn [c_op c_ver];
+    rewrite ?pvleb, ?pvltb, ?pveqb, ?(vcmp_releq_l r r2 v H), ?(vcmp_releq_r r r2 v H); reflexivity.
+Qed.
+
+Lemma sop_eq_dec (a b : sop) : {a = b} + {a <> b}.
+Proof. decide equality. Qed.
+
+Theorem normalize_pv_sound c : pv_operand_ok c ->
+  exists ns, normalize_pv c = Ret ns /\ canon ns /\ simp_ok ns
+             /\ forall X Y Z, clause_sem c (pvv X Y) = mem (vcut (pfv X Y Z)) ns.
+Proof.
+  destruct c as [op V]. intros [HV Hlen]. cbn [c_op c_ver] in *. set (r0 := release V) in *.
+  assert (Star : forall (sop' : sop), (sop' = OpEqStar \/ sop' = OpNeStar) -> (length r0 = 1%nat \/ length r0 = 2%nat) ->
+            exists ns, get_specifier (mkClause sop' V) = Ret ns /\ canon ns /\ simp_ok ns
+                       /\ forall X Y Z, clause_sem (mkClause sop' V) (pvv X Y) = mem (vcut (pfv X Y Z)) ns).
+  { intros o Ho Hl. assert (W : wf_clause (mkClause o V)).
+    { unfold wf_clause. cbn [c_op c_ver]. fold r0. destruct Ho as [-> | ->]; destruct r0; cbn in Hl; try discriminate; destruct Hl; discriminate. }
+    destruct (get_specifier_sem _ W) as (ns & E & C & S & M). exists ns. repeat split; try assumption.
+    intros X Y Z. rewrite (M (pfv X Y Z) (final_relver _ _)). unfold clause_sem. cbn [c_op c_ver].
+    rewrite HV. fold r0. destruct Ho as [-> | ->]; rewrite !prefix_match_pm; cbn [epoch release relver pvv pfv];
+      destruct r0 as [|a [|b [|x t]]]; cbn in Hl; try (destruct Hl; discriminate); cbn [pm]; rewrite ?andb_true_r; reflexivity. }
+  assert (Simple : forall o a b, o <> OpEqStar -> o <> OpNeStar -> (o = OpCompat -> r0 = [a; b]) -> releq r0 [a; b] ->
+            normalize_pv (mkClause o V) = get_specifier (norm_target o a b) ->
+            exists ns, normalize_pv (mkClause o V) = Ret ns /\ canon ns /\ simp_ok ns
+                       /\ forall X Y Z, clause_sem (mkClause o V) (pvv X Y) = mem (vcut (pfv X Y Z)) ns).
+  { intros o a b N1 N2 Hc Hr En. assert (W : wf_clause (norm_target o a b)) by (destruct o; cbn; try exact I; try discriminate; auto).
+    destruct (get_specifier_sem _ W) as (ns & E & C & S & M). exists ns. split; [rewrite En; exact E|]. split; [exact C|]. split; [exact S|].
+    intros X Y Z. rewrite (M (pfv X Y Z) (final_relver _ _)), <- (norm_arith o a b X Y Z N1 N2). rewrite HV. fold r0.
+    destruct (sop_eq_dec o OpCompat) as [->|Nc]; [rewrite (Hc eq_refl); reflexivity|].
+    exact (simple_sem_releq o r0 [a; b] _ Hr Nc N1 N2). }
+  assert (Strip : forall o, o <> OpEqStar -> o <> OpNeStar -> o <> OpCompat ->
+            (length (strip_to2 (length r0) r0) = 1%nat \/ length (strip_to2 (length r0) r0) = 2%nat) ->
+            exists ns, normalize_pv (mkClause o V) = Ret ns /\ canon ns /\ simp_ok ns
+                       /\ forall X Y Z, clause_sem (mkClause o V) (pvv X Y) = mem (vcut (pfv X Y Z)) ns).
+  { intros o N1 N2 N3 Hl. pose proof (strip_to2_releq (length r0) r0) as Hr.
+    destruct (strip_to2 (length r0) r0) as [|a [|b [|x t]]] eqn:Er; cbn in Hl; try (destruct Hl; discriminate).
+    - apply (Simple o a 0%N N1 N2); [intros; congruence | eapply releq_trans; [exact Hr | apply releq_sym, (releq_app_zero [a] [0%N]); reflexivity]|].
+      unfold normalize_pv. cbn [c_op c_ver]. fold r0. destruct o; try congruence; rewrite Er; reflexivity.
+    - apply (Simple o a b N1 N2); [intros; congruence | exact Hr|].
+      unfold normalize_pv. cbn [c_op c_ver]. fold r0. destruct o; try congruence; rewrite Er; reflexivity. }
+  destruct op; try (apply Star; [auto | exact Hlen]); try (apply Strip; [discriminate | discriminate | discriminate | exact Hlen]).
+  (* ~= *)
+  destruct r0 as [|a [|b [|? ?]]] eqn:Er0; try discriminate Hlen.
+  apply (Simple OpCompat a b); try discriminate; [intros _; reflexivity | apply releq_refl|].
+  unfold normalize_pv. cbn [c_op c_ver]. fold r0. rewrite Er0. reflexivity.
+Qed.
+
+(* _merge_python_version_single_markers: on every consistent interpreter (python_version = X.Y, python_full_version = X.Y.Z) the
+   result evaluates as the conjunction / disjunction of the two atoms *)
+Theorem vmerge_pv_sound kind c_pv c_full res : pv_operand_ok c_pv -> wf_clause c_full ->
+  vmerge_pv kind c_pv c_full = Ret res ->
+  (forall ns sf rs, normalize_pv c_pv = Ret ns -> get_specifier c_full = Ret sf ->
+     (if kind then spec_and ns sf else spec_or ns sf) = Ret rs -> Forall tilde_safe (ranges_of rs)) ->
+  forall X Y Z,
+  let want := bopb kind (clause_sem c_pv (pvv X Y)) (clause_sem c_full (pfv X Y Z)) in
+  match res with
+  | VMFirst => clause_sem c_pv (pvv X Y) = want
+  | VMSecond => True
+  | VMAny => want = true
+  | VMEmpty => want = false
+  | VMAtom k => atom_sem k (pfv X Y Z) = want
+  | VMNone => True
+  end.
+Proof.
+  intros Hpv Wf H Hts X Y Z want. unfold vmerge_pv in H.
+  destruct (normalize_pv_sound c_pv Hpv) as (ns & En & Cn & Sn & Mn).
+  destruct (get_specifier_sem c_full Wf) as (sf & Ef & Cf & Sf & Mf).
+  rewrite En, Ef in H. cbn [bind] in H.
+  assert (Hrs : exists rs, (if kind then Corr.P.spec_and ns sf else Corr.P.spec_or ns sf) = Ret rs /\ canon rs /\ simp_ok rs
+                           /\ forall c, SE.pos c -> mem c rs = bopb kind (mem c ns) (mem c sf)).
+  { destruct kind.
+    - destruct (spec_and_spec ns sf Cn Cf) as (rs & E & Cr & Mr). exists rs. split; [exact E|]. split; [exact Cr|]. split; [|intros c _; apply Mr].
+      apply simp_ok_iff. apply (spec_and_inv simp_ok_range GU fresh_simp_ok ns sf rs); [apply simp_ok_iff, Sn | apply simp_ok_iff, Sf | exact E].
+    - destruct (spec_or_spec ns sf Cn Cf) as (rs & E & Cr & Mr). exists rs. split; [exact E|]. split; [exact Cr|]. split; [|intros c _; apply Mr].
+      apply simp_ok_iff. apply (spec_or_inv simp_ok_range GU fresh_simp_ok ns sf rs); [apply simp_ok_iff, Sn | apply simp_ok_iff, Sf | exact E]. }
+  destruct Hrs as (rs & Ers & Crs & Srs & Mrs). rewrite Ers in H. cbn [bind] in H.
+  assert (Tr : Forall tilde_safe (ranges_of rs)) by (apply (Hts ns sf rs En Ef); destruct kind; exact Ers).
+  assert (Fv : final (pfv X Y Z)) by apply final_relver.
+  assert (P : SE.pos (vcut (pfv X Y Z))) by apply lt_posinf.
+  assert (Mv : mem (vcut (pfv X Y Z)) rs = want).
+  { unfold want. rewrite (Mrs _ P), <- (Mn X Y Z), (Mf _ Fv). reflexivity. }
+  destruct (spec_eq_spec' rs ns Crs Cn) as (e1 & Ee1 & He1). assert (Ee1' : Corr.P.spec_eq rs ns = Ret e1) by exact Ee1. rewrite Ee1' in H. cbn [bind] in H.
+  destruct e1.
+  { injection H as <-. rewrite <- Mv, (Mn X Y Z). symmetry. apply (proj1 He1 eq_refl). exact P. }
+  destruct (from_specifier PFV rs) as [fr| |] eqn:Efr; try discriminate H. cbn [bind] in H. injection H as <-.
+  pose proof (back_sound PFV rs Crs Srs Tr fr Efr) as B.
+  destruct fr as [| | |k]; try exact I; rewrite <- Mv; exact (B _ Fv).
+Qed.
